@@ -110,8 +110,8 @@ Example C03_count_generic_nonvacuous :
   emit_rect enc_Tight true 48 48 (0, 0, 64, 64) = EmData (0, 0, 64, 64).
 Proof. repeat split; reflexivity. Qed.
 
-(* ---- the whole update ----
-   Full statement (FALSE for the code, see the _refuted theorems):
+(* ---- the whole update, count stage BEFORE dccedf3 (function [announce]) ----
+   Full statement (FALSE for that code, see the _refuted theorems):
      forall inputs, announce ... = Some (n, region', lm) ->
        n = ncopy + (number of headers emitted for region') + npseudo  /\  (lm = true -> lastrect = true).
    Provable part: all region rectangles non-degenerate and fewer than 65535 rectangles. *)
@@ -132,10 +132,16 @@ Example C03_update_count_nonvacuous :
   emitted_len (emit_region enc_CoRRE false 48 48 [(0, 0, 100, 50); (0, 50, 10, 10)]) = Some 7.
 Proof. split; reflexivity. Qed.
 
-(* The count stage with the proposed repair of F5 (notes/fix_C03_5.diff; used by the model when
-   props/C03.py finds the repair in the source): the FULL statement -- no hypothesis about 65535 any
-   more, only that the copy rectangles plus the splitting of ONE bounding box stay below the field size *)
-Theorem C03_update_count_fixed : forall pref lastrect cmw cmh maxrects region ncopy npseudo n region' lm,
+(* MAIN COUNT THEOREM.  The count stage of /repo since dccedf3 (repair of F5: explicit lastRectMode flag,
+   an update that would announce 65535 or more rectangles is coalesced to its bounding box and counted
+   again; [announce_fixed] is what the model runs, props/C03.py confirms from the source on every run that
+   the repair is present).  FULL statement: the announced count is the number of rectangle headers that
+   follow, LastRect termination only for a Tight client that enabled LastRect -- no hypothesis about
+   65535 any more, only that the copy rectangles plus the splitting of ONE bounding box fit the field.
+   (C03_update_count_partial / C03_lastrect_mode_partial / C03_count_*_refuted above and below describe
+   the count stage BEFORE dccedf3, function [announce]; they are kept because the corpus witnesses of F5
+   are still replayed against them when the repair is reverted.) *)
+Theorem C03_update_count : forall pref lastrect cmw cmh maxrects region ncopy npseudo n region' lm,
   1 <= cmw -> 1 <= cmh -> Forall nondeg region -> region <> [] -> 0 <= ncopy -> 0 <= npseudo <= 6 ->
   (forall kb, emitted_len (emit_region pref lastrect cmw cmh [bbox_of region]) = Some kb -> ncopy + kb + 6 < 65535) ->
   announce_fixed pref lastrect cmw cmh maxrects region ncopy npseudo = Some (n, region', lm) ->
@@ -144,7 +150,7 @@ Theorem C03_update_count_fixed : forall pref lastrect cmw cmh maxrects region nc
                            n = ncopy + k + npseudo /\ n < 65535).
 Proof. exact update_count_fixed. Qed.
 
-Example C03_update_count_fixed_nonvacuous :
+Example C03_update_count_fixed_flow_nonvacuous :
   (exists r', announce_fixed enc_Raw false 48 48 0 (repeat (0, 0, 1, 1) (Z.to_nat 300)) 65400 0 = Some (65401, r', false)) /\
   announce_fixed enc_Tight true 48 48 50 [(0, 0, 64, 64)] 0 0 = Some (65535, [(0, 0, 64, 64)], true) /\
   announce_fixed enc_CoRRE false 48 48 50 [(0, 0, 100, 50); (0, 50, 10, 10)] 2 1 = Some (10, [(0, 0, 100, 50); (0, 50, 10, 10)], false).
@@ -335,18 +341,23 @@ Example C03_request_never_degenerate_nonvacuous :
   clip_request 20 10 19 9 100 100 = Some (19, 9, 1, 1) /\ clip_request 20 10 0 0 20 10 = Some (0, 0, 20, 10).
 Proof. exact clip_request_examples. Qed.
 
-(* ---- C03_parse_print: the strict parser inverts the printer ---- *)
-Theorem C03_parse_print_rect : forall s r k s' rest, wf_rect s r k s' ->
-  parse_rect s (print_rect r ++ rest) = POk (fst r, k, s') rest.
+(* ---- C03_parse_print: the strict parser inverts the printer ----
+   [hf] is the fuel of the Hextile tile walk: any number above the length of the stream being parsed
+   (parse_stream passes S (length stream)); the theorems hold for every such number *)
+Theorem C03_parse_print_rect : forall hf s r k s' rest, wf_rect s r k s' ->
+  (length (print_rect r ++ rest) < hf)%nat ->
+  parse_rect hf s (print_rect r ++ rest) = POk (fst r, k, s') rest.
 Proof. exact parse_rect_print. Qed.
 
-Theorem C03_parse_print : forall s rs s' pad rest, wf_rects s rs s' -> Z.of_nat (length rs) < 65535 ->
-  parse_msg s (print_fbu pad rs ++ rest) = POk (MFbu (Z.of_nat (length rs)) (map fst rs) false, s') rest.
+Theorem C03_parse_print : forall hf s rs s' pad rest, wf_rects s rs s' -> Z.of_nat (length rs) < 65535 ->
+  (length (print_fbu pad rs ++ rest) < hf)%nat ->
+  parse_msg hf s (print_fbu pad rs ++ rest) = POk (MFbu (Z.of_nat (length rs)) (map fst rs) false, s') rest.
 Proof. exact parse_print_fbu. Qed.
 
-Theorem C03_parse_print_lastrect : forall s rs s' pad rest, wf_rects s rs s' ->
+Theorem C03_parse_print_lastrect : forall hf s rs s' pad rest, wf_rects s rs s' ->
   pseudo_enabled s enc_LastRect = true ->
-  parse_msg s (print_fbu_last pad rs ++ rest) = POk (MFbu 65535 (map fst rs) true, s') rest.
+  (length (print_fbu_last pad rs ++ rest) < hf)%nat ->
+  parse_msg hf s (print_fbu_last pad rs ++ rest) = POk (MFbu 65535 (map fst rs) true, s') rest.
 Proof. exact parse_print_fbu_last. Qed.
 
 Theorem C03_parse_print_stream : forall s rs1 s1 rs2 s2 pad1 pad2,
